@@ -285,8 +285,32 @@ class _UnitInterp:
 
     # env keys: unit var names -> value; '#f', '#o' names of factor/offset; '#conv' (from, to);
     # '#applied' dict name -> 'conv'/'badformula'
+    @staticmethod
+    def _uvars(env):
+        """Names currently holding a unit string (the three parameters and locals derived from them)."""
+        return {k for k in env if not k.startswith('#')}
+
+    def _uval(self, e, env):
+        """(True, value) if e is a unit-valued expression over unit variables / None, else (False, None)."""
+        if isinstance(e, ast.Name) and e.id in self._uvars(env):
+            return True, env[e.id]
+        if isinstance(e, ast.Constant) and e.value is None:
+            return True, None
+        if isinstance(e, ast.IfExp):
+            c = self._evalb(e.test, env)
+            if c == 'free':
+                return False, None
+            return self._uval(e.body if c else e.orelse, env)
+        if isinstance(e, ast.BoolOp) and isinstance(e.op, ast.Or) and len(e.values) == 2:
+            # `a or b` on unit strings: a if a is truthy (not None) else b
+            k1, v1 = self._uval(e.values[0], env)
+            k2, v2 = self._uval(e.values[1], env)
+            if k1 and k2:
+                return True, (v1 if v1 is not None else v2)
+        return False, None
+
     def _tracked(self, env):
-        t = set(_UNITVARS)
+        t = self._uvars(env)
         for k in ('#f', '#o'):
             if env.get(k):
                 t.add(env[k])
@@ -326,17 +350,13 @@ class _UnitInterp:
                     raise _Unknown(t, f'mixed unit/non-unit condition: {astx.src(t)}')
                 return 'free'
             return all(vals) if isinstance(t.op, ast.And) else any(vals)
-        if isinstance(t, ast.Name) and t.id in _UNITVARS:
+        if isinstance(t, ast.Name) and t.id in self._uvars(env):
             return env[t.id] is not None
         if isinstance(t, ast.Compare) and len(t.ops) == 1:
             l, r, op = t.left, t.comparators[0], t.ops[0]
 
             def val(n):
-                if isinstance(n, ast.Name) and n.id in _UNITVARS:
-                    return True, env[n.id]
-                if isinstance(n, ast.Constant) and n.value is None:
-                    return True, None
-                return False, None
+                return self._uval(n, env)
             fo = env.get('#fo')
             if fo is not None and isinstance(op, (ast.Eq, ast.NotEq)):
                 for a_, b_ in ((l, r), (r, l)):
@@ -391,7 +411,7 @@ class _UnitInterp:
             f, o = env.get('#f'), env.get('#o')
             if f and (astx.names(v) & {f, o}):
                 return [(self._conv(env, _formula(v, f, o)), env)]
-            if astx.names(v) & set(_UNITVARS):
+            if astx.names(v) & self._uvars(env):
                 raise _Unknown(v, f'return value depends on a unit string: {astx.src(v)}')
             return [(self._plain(env), env)]
         if isinstance(st, ast.Assign):
@@ -401,10 +421,10 @@ class _UnitInterp:
                 c = st.value
                 if not (isinstance(tg, ast.Tuple) and len(tg.elts) == 2 and
                         all(isinstance(x, ast.Name) for x in tg.elts) and len(c.args) == 2 and not c.keywords
-                        and all(isinstance(x, ast.Name) and x.id in _UNITVARS for x in c.args)):
+                        and all(self._uval(x, env)[0] for x in c.args)):
                     raise _Unknown(st, f'unrecognised unit_conversion call: {astx.src(st)}')
                 env['#f'], env['#o'] = tg.elts[0].id, tg.elts[1].id
-                env['#conv'] = (env[c.args[0].id], env[c.args[1].id])
+                env['#conv'] = (self._uval(c.args[0], env)[1], self._uval(c.args[1], env)[1])
                 a_, b_ = env['#conv']
                 if a_ is None or b_ is None:
                     return [(('raise',), env)]
@@ -419,14 +439,16 @@ class _UnitInterp:
                 return res
             if astx.mentions(st.value, 'unit_conversion'):
                 raise _Unknown(st, f'unrecognised unit_conversion use: {astx.src(st)}')
-            if isinstance(tg, ast.Name) and tg.id in _UNITVARS:
-                v = st.value
-                if isinstance(v, ast.Name) and v.id in _UNITVARS:
-                    env[tg.id] = env[v.id]
-                elif isinstance(v, ast.Constant) and v.value is None:
-                    env[tg.id] = None
-                else:
+            if isinstance(tg, ast.Name) and not isinstance(st.value, ast.Constant):
+                ku, vu = self._uval(st.value, env)
+                if ku:                      # a (new or old) local holding a unit string
+                    env[tg.id] = vu
+                    return [(None, env)]
+            if isinstance(tg, ast.Name) and tg.id in self._uvars(env):
+                ku, vu = self._uval(st.value, env)
+                if not ku:
                     raise _Unknown(st, f'unrecognised assignment to a unit variable: {astx.src(st)}')
+                env[tg.id] = vu
                 return [(None, env)]
             f, o = env.get('#f'), env.get('#o')
             if f and (astx.names(st.value) & {f, o}):
@@ -1054,11 +1076,23 @@ def _elem_of(tg, e, at, loopvar, depth=0):
     if depth > 4:
         return None
     if isinstance(e, ast.Name):
-        v = tg.rd.value(at, e.id)
         ds = tg.rd.defs(at, e.id)
-        if v is None or len(ds) != 1:
+        if len(ds) != 1:
             return None
-        return _elem_of(tg, v, next(iter(ds)), loopvar, depth + 1)
+        d = next(iter(ds))
+        v = tg.rd.value(at, e.id)
+        if v is None and d.kind == 'stmt' and isinstance(d.ast, ast.Assign) and len(d.ast.targets) == 1 and \
+                isinstance(d.ast.targets[0], (ast.Tuple, ast.List)) and \
+                isinstance(d.ast.value, (ast.Tuple, ast.List)) and \
+                len(d.ast.targets[0].elts) == len(d.ast.value.elts) and \
+                not any(isinstance(x, ast.Starred) for x in d.ast.targets[0].elts + d.ast.value.elts):
+            # a, b = x, y   (parallel assignment: position-wise)
+            for t_, v_ in zip(d.ast.targets[0].elts, d.ast.value.elts):
+                if isinstance(t_, ast.Name) and t_.id == e.id:
+                    v = v_
+        if v is None:
+            return None
+        return _elem_of(tg, v, d, loopvar, depth + 1)
     if isinstance(e, ast.Subscript) and isinstance(e.value, ast.Name):
         off = _int_expr(e.slice, {loopvar: 0})
         if off is None or loopvar not in astx.names(e.slice):
@@ -1657,15 +1691,51 @@ def names(repo, out):
                 "fails): the prefix test needs the '.' separator", key='prefix-boundary')
     else:
         out.unsure(fn, st, f'prefix argument not recognised ({sorted(a)})')
-    abs_b, rel_b = (st.body, st.orelse) if pol else (st.orelse, st.body)
+    g = tg.g
+    tnode = g.nodes_of(st)[0]
+    # the variable that carries the resolved name: the one assigned inside this if (or, failing that, before it)
+    cands = {s2.targets[0].id for s2 in astx.walk_stmts(st.body + st.orelse)
+             if isinstance(s2, ast.Assign) and len(s2.targets) == 1 and isinstance(s2.targets[0], ast.Name)}
+    if len(cands) != 1:
+        out.unsure(fn, st, f'resolved-name variable not identified ({sorted(cands)})')
+        return
+    var = next(iter(cands))
 
-    def assigned(stmts):
+    def value_on(label):
+        """Tags of `var` at its first uses on paths leaving the prefix test through `label`."""
+        state = {}
+        work = []
+        for m, lab in g.succ[tnode]:
+            if lab == label:
+                state[m] = set(tg.rd.defs(tnode, var))
+                work.append(m)
         res = set()
-        for s2 in astx.walk_stmts(stmts):
-            if isinstance(s2, ast.Assign) and len(s2.targets) == 1 and isinstance(s2.targets[0], ast.Name):
-                res |= tg.tags(s2.value, tg.at(s2))
+        while work:
+            n = work.pop()
+            cur = state[n]
+            is_def = n.kind == 'stmt' and isinstance(n.ast, ast.Assign) and \
+                any(isinstance(t_, ast.Name) and t_.id == var for t_ in astx.assigned_targets(n.ast))
+            uses = any(isinstance(w, ast.Name) and w.id == var and isinstance(w.ctx, ast.Load)
+                       for e_ in n.exprs() for w in astx.walk(e_))
+            if uses:
+                for d in cur:
+                    if d.kind == 'stmt' and isinstance(d.ast, ast.Assign) and len(d.ast.targets) == 1 and \
+                            isinstance(d.ast.targets[0], ast.Name):
+                        res |= tg.tags(d.ast.value, d)
+                    else:
+                        res.add(UNK)
+                if not cur:
+                    res.add(UNK)
+                continue
+            nxt = {n} if is_def else cur
+            for m, lab in g.succ[n]:
+                if lab == 'exc' or m in (g.exit, g.raise_exit):
+                    continue
+                if m not in state or not nxt <= state[m]:
+                    state[m] = state.get(m, set()) | nxt
+                    work.append(m)
         return res
-    ta, tr = assigned(abs_b), assigned(rel_b)
+    ta, tr = value_on('true' if pol else 'false'), value_on('false' if pol else 'true')
     if ta == {'param:varname'} and tr == {JOIN}:
         out.ok(fn, st, "absolute: name itself; relative: pathname + '.' + name")
     elif ta == {JOIN} and tr == {'param:varname'}:
@@ -1695,6 +1765,23 @@ _FULLW = ("                try:\n                    arr[:] = val\n             
 _CARRY = ("                if node_meta.discrete:\n                    self._discrete_outputs[name] = node_meta.val\n"
           "                else:\n                    self._outputs.set_var(name, node_meta.val)\n")
 _IVS_IF = "        if self._flat_src:\n            # arr.flat writes through"
+
+_FINDNODE = ("        if pathname:\n            prefix = pathname + '.'\n            if varname.startswith(prefix):\n"
+             "                name = varname\n            else:\n                name = pathname + '.' + varname\n"
+             "        else:\n            name = varname\n")
+_GETUNITS = ("            if src_units is None:\n                src_units = tgt_units\n\n"
+             "            if src_units != units:\n                try:\n"
+             "                    scale, offset = unit_conversion(src_units, units)\n")
+_SETUNITS = ("        if units is None:\n            units = tgt_units\n\n        if units is not None:\n"
+             "            if src_units is None:\n"
+             "                raise TypeError(f\"Can't express value with units of '{src_units}' in units of \"\n"
+             "                                f\"'{units}'.\")\n"
+             "            elif src_units != units:\n                try:\n"
+             "                    scale, offset = unit_conversion(units, src_units)\n"
+             "                except Exception:\n"
+             "                    raise TypeError(f\"Can't express value with units of '{src_units}' in units of \"\n"
+             "                                    f\"'{units}'.\")\n\n"
+             "                return (val + offset) * scale\n\n        return val\n")
 
 selftest(
     'C07',
@@ -1879,6 +1966,53 @@ selftest(
          "            else:\n                name = varname\n"),
     Twin('twin-value-input-inline', CG, 'model._inputs._abs_set_val(node[1], tval, idx=indices())',
          'mirrored = tval\n                    model._inputs._abs_set_val(node[1], mirrored, idx=indices())'),
+    # ---- robustness round 2: newly accepted shapes, and the obligation broken inside each shape
+    Twin('twin-wb-parallel-assign', CG, _WB,
+         "            prev, sub = chain[i], chain[i + 1]\n            if sub.base is not prev:\n"
+         "                indices_list[i].indexed_val_set(prev, sub)"),
+    Mutant('wb-parallel-assign-swapped', CG, _WB,
+           "            prev, sub = chain[i + 1], chain[i]\n            if sub.base is not prev:\n"
+           "                indices_list[i].indexed_val_set(prev, sub)", 'C07.writeback'),
+    Mutant('wb-parallel-assign-guard-none', CG, _WB,
+           "            prev, sub = chain[i], chain[i + 1]\n            if sub.base is None:\n"
+           "                indices_list[i].indexed_val_set(prev, sub)", 'C07.writeback'),
+    Twin('twin-names-default-then-override', CG, _FINDNODE,
+         "        name = varname\n        if pathname:\n            prefix = pathname + '.'\n"
+         "            if not varname.startswith(prefix):\n                name = prefix + varname\n"),
+    Mutant('names-default-override-inverted', CG, _FINDNODE,
+           "        name = varname\n        if pathname:\n            prefix = pathname + '.'\n"
+           "            if varname.startswith(prefix):\n                name = prefix + varname\n", 'C07.names'),
+    Mutant('names-default-override-no-dot', CG, _FINDNODE,
+           "        name = varname\n        if pathname:\n"
+           "            if not varname.startswith(pathname):\n                name = pathname + '.' + varname\n",
+           'C07.names'),
+    Twin('twin-units-derived-local', CG, _GETUNITS,
+         "            from_units = tgt_units if src_units is None else src_units\n\n"
+         "            if from_units != units:\n                try:\n"
+         "                    scale, offset = unit_conversion(from_units, units)\n"),
+    Twin('twin-units-derived-local-or', CG, _GETUNITS,
+         "            from_units = src_units or tgt_units\n\n"
+         "            if from_units != units:\n                try:\n"
+         "                    scale, offset = unit_conversion(from_units, units)\n"),
+    Mutant('units-derived-local-swapped', CG, _GETUNITS,
+           "            from_units = tgt_units if src_units is None else src_units\n\n"
+           "            if from_units != units:\n                try:\n"
+           "                    scale, offset = unit_conversion(units, from_units)\n", 'C07.units'),
+    Mutant('units-derived-local-wrong-choice', CG, _GETUNITS,
+           "            from_units = src_units if src_units is None else tgt_units\n\n"
+           "            if from_units != units:\n                try:\n"
+           "                    scale, offset = unit_conversion(from_units, units)\n", 'C07.units'),
+    Twin('twin-units-set-early-returns', CG, _SETUNITS,
+         "        if units is None:\n            units = tgt_units\n            if units is None:\n                return val\n\n"
+         "        if src_units is None:\n            raise TypeError('no source units')\n"
+         "        if src_units == units:\n            return val\n\n"
+         "        scale, offset = unit_conversion(units, src_units)\n\n        return (val + offset) * scale\n"),
+    Mutant('units-set-early-returns-swapped', CG, _SETUNITS,
+           "        if units is None:\n            units = tgt_units\n            if units is None:\n                return val\n\n"
+           "        if src_units is None:\n            raise TypeError('no source units')\n"
+           "        if src_units == units:\n            return val\n\n"
+           "        scale, offset = unit_conversion(src_units, units)\n\n        return (val + offset) * scale\n",
+           'C07.units'),
     # ---- twins
     Twin('twin-units-flip-compare', CG, '            if src_units != units:', '            if units != src_units:'),
     Twin('twin-units-commuted-formula', CG, 'return (val + offset) * scale', 'return scale * (offset + val)', nth=1),
